@@ -178,6 +178,8 @@ def check(tier, seed, replay=None):
             return 'unexpected harness output ' + g_after[0][:60], None
         if f60[1] == '2':
             return 'opening the damaged file panicked', None
+        if f60[1] == '4':
+            return 'the damaged file was opened with dimension, quantisation or metric other than those it was created with (the options passed to the open replaced the stored ones)', None
         co = None
         if f60[1] != m60[1]:
             co = 'open result differs: implementation %s, model %s' % (f60[1], m60[1])
